@@ -111,7 +111,7 @@ type topicPlan struct {
 
 type faultPlan struct {
 	Nth  int   `json:"nth"`  // index of the Produce frame it applies to
-	Code int16 `json:"code"` // 0: close the connection without answering
+	Code int16 `json:"code"` // 0: close the connection before handling; -1: handle (append), then close without answering
 	Sel  int   `json:"sel"`  // which partitions of the request: 0 all, k>0: every k-th
 }
 
@@ -196,11 +196,6 @@ func genPlan(t *rapid.T) *plan {
 			p.B = 512
 		}
 	}
-	if knownActive[knownMsgSetBatchMax] && p.PV <= 2 && p.B != p.W {
-		// excluded input class: a batch maximum below the write limit on message-set versions
-		p.B = p.W
-		ev.Excluded(knownMsgSetBatchMax)
-	}
 	p.Linger = time.Duration(rapid.SampledFrom([]int{0, 5, 5, 20, 100}).Draw(t, "linger_ms")) * time.Millisecond
 	nt := rapid.IntRange(1, 6).Draw(t, "ntopics")
 	used := map[string]bool{}
@@ -218,6 +213,35 @@ func genPlan(t *rapid.T) *plan {
 		}
 		used[name] = true
 		p.Topics = append(p.Topics, topicPlan{Name: name, Parts: int32(rapid.IntRange(1, 8).Draw(t, "nparts"))})
+	}
+	if knownActive[knownMsgSetBatchMax] && p.PV <= 2 {
+		// Known finding's input class (message-set versions): the record being appended is
+		// sized with its v2 length, so (a) a message set may exceed ProducerBatchMaxBytes by
+		// one record's encoding difference (<= 48 bytes) - for this class that claim is not
+		// asserted strictly, see checkBatch - and (b) when the write limit rather than the
+		// batch maximum is the binding bound, an admitted batch may fit no request at all
+		// and the sink spins forever. (b) is avoided by construction: the batch maximum is
+		// kept at least 64 bytes below what one partition can carry in a request.
+		over := 26 + 2 + 16 + 12 + 64
+		if p.ClientID != nil {
+			over += len(*p.ClientID)
+		} else {
+			over += 3
+		}
+		longest := 16
+		for _, tp := range p.Topics {
+			if len(tp.Name) > longest {
+				longest = len(tp.Name)
+			}
+		}
+		over += longest
+		if int(p.B) > int(p.W)-over {
+			if int(p.W)-over < 512 {
+				p.W = int32(512 + over)
+			}
+			p.B = p.W - int32(over)
+		}
+		ev.Excluded(knownMsgSetBatchMax)
 	}
 	// records
 	shape := rapid.IntRange(0, 3).Draw(t, "shape") // 0 many small, 1 around the batch limit, 2 mixed, 3 packed requests
@@ -282,12 +306,12 @@ func genPlan(t *rapid.T) *plan {
 		budget -= 60
 		p.Recs = append(p.Recs, r)
 	}
-	if p.Mode != modeTxn && p.PV >= 0 {
+	if p.Mode != modeTxn {
 		nf := rapid.SampledFrom([]int{0, 0, 0, 1, 2}).Draw(t, "nfaults")
 		for i := 0; i < nf; i++ {
 			p.Faults = append(p.Faults, faultPlan{
 				Nth:  rapid.IntRange(0, 6).Draw(t, "fault_nth"),
-				Code: int16(rapid.SampledFrom([]int{0, 6, 7, 19}).Draw(t, "fault_code")),
+				Code: int16(rapid.SampledFrom([]int{0, 6, 7, 19, -1}).Draw(t, "fault_code")),
 				Sel:  rapid.IntRange(0, 2).Draw(t, "fault_sel"),
 			})
 		}
@@ -356,15 +380,30 @@ type partKey struct {
 	part  int32
 }
 
+type appended struct {
+	seq, count int32
+	base       int64
+}
+
+// partState is the broker's per-partition producer state. Like Kafka it remembers the last
+// five appended batches of the current producer epoch: a resend of any of them is
+// acknowledged again with its original offset instead of being appended twice.
 type partState struct {
-	pid       int64
-	epoch     int16
-	nextSeq   int32
-	lastSeq   int32
-	lastCount int32
-	lastBase  int64
-	have      bool
-	logEnd    int64
+	pid     int64
+	epoch   int16
+	nextSeq int32
+	last    []appended
+	have    bool
+	logEnd  int64
+}
+
+func (st *partState) duplicateOf(seq, count int32) (int64, bool) {
+	for _, a := range st.last {
+		if a.seq == seq && a.count == count {
+			return a.base, true
+		}
+	}
+	return 0, false
 }
 
 type ack struct {
@@ -416,6 +455,13 @@ func (bs *brokerSide) onProduce(f *sb.Frame, req *kmsg.ProduceRequest, resp *kms
 	if fault != nil && fault.Code == 0 {
 		return false // connection dies before the request is handled
 	}
+	dropAnswer := false
+	if fault != nil && fault.Code == -1 {
+		// the request is handled, the answer is lost: only for the idempotent producer on a
+		// version that carries sequences (elsewhere a resend is a legitimate duplicate)
+		dropAnswer = bs.p.Mode == modeIdempotent && f.Version >= 3
+		fault = nil
+	}
 	idx := 0
 	for ti := range req.Topics {
 		t := &req.Topics[ti]
@@ -454,12 +500,13 @@ func (bs *brokerSide) onProduce(f *sb.Frame, req *kmsg.ProduceRequest, resp *kms
 						appendIt = false
 					}
 				case seq == st.nextSeq:
-				case seq == st.lastSeq && count == st.lastCount:
-					// duplicate of the last appended batch: acknowledged with its offset
-					rp.BaseOffset = st.lastBase
-					bs.acks = append(bs.acks, ack{frame: f.Seq, tp: tp, code: 0, appended: false, responded: true})
-					continue
 				default:
+					if base, dup := st.duplicateOf(seq, count); dup {
+						// resend of a batch that is already in the log
+						rp.BaseOffset = base
+						bs.acks = append(bs.acks, ack{frame: f.Seq, tp: tp, code: 0, appended: false, responded: !dropAnswer})
+						continue
+					}
 					rp.ErrorCode = 45
 					appendIt = false
 				}
@@ -470,14 +517,20 @@ func (bs *brokerSide) onProduce(f *sb.Frame, req *kmsg.ProduceRequest, resp *kms
 				continue
 			}
 			rp.BaseOffset = st.logEnd
+			if !st.have || st.pid != pid || st.epoch != epoch {
+				st.last = nil
+			}
 			st.have, st.pid, st.epoch = true, pid, epoch
-			st.lastSeq, st.lastCount, st.lastBase = seq, count, st.logEnd
+			st.last = append(st.last, appended{seq, count, st.logEnd})
+			if len(st.last) > 5 {
+				st.last = st.last[1:]
+			}
 			st.nextSeq = int32((int64(seq) + int64(count)) & 0x7fffffff)
 			st.logEnd += int64(count)
-			bs.acks = append(bs.acks, ack{frame: f.Seq, tp: tp, code: 0, appended: true, responded: req.Acks != 0})
+			bs.acks = append(bs.acks, ack{frame: f.Seq, tp: tp, code: 0, appended: true, responded: req.Acks != 0 && !dropAnswer})
 		}
 	}
-	return true
+	return !dropAnswer
 }
 
 // ---- running a case ----
@@ -488,6 +541,10 @@ type outcome struct {
 	recs   []*produced
 	pid    int64
 	infra  string
+	// aborted: the case was cut short (undecodable Produce frame, or stuck); delivery is
+	// then not asserted. stuck: Flush timed out in virtual time.
+	aborted bool
+	stuck   string
 }
 
 func codecOpt(c int8) kgo.CompressionCodec {
@@ -533,6 +590,18 @@ func runCase(tt *testing.T, p *plan) *outcome {
 			id := topicID(i)
 			s.Topics = append(s.Topics, sb.Topic{Name: t.Name, ID: id, Partitions: t.Parts})
 			bs.topicID[id] = t.Name
+		}
+		// A Produce frame whose envelope kmsg cannot decode ends the case at once (the oracle
+		// reports the frame); otherwise the client would retry it for the rest of the run.
+		caseCtx, cancelCase := context.WithCancel(context.Background())
+		defer cancelCase()
+		s.Override = func(c *sb.Conn, f *sb.Frame) bool {
+			if f.Key == 0 {
+				if _, err := sb.ParseRequest(f); err != nil {
+					cancelCase()
+				}
+			}
+			return false
 		}
 		br := e.Listen(9092, s.Handle)
 		var codecs []kgo.CompressionCodec
@@ -583,10 +652,13 @@ func runCase(tt *testing.T, p *plan) *outcome {
 			}
 		}
 		flush := func() {
-			ctx, cancel := context.WithTimeout(context.Background(), 30*time.Minute)
+			ctx, cancel := context.WithTimeout(caseCtx, 2*time.Minute)
 			defer cancel()
 			if err := cl.Flush(ctx); err != nil {
-				out.infra = fmt.Sprintf("Flush: %v", err)
+				if caseCtx.Err() == nil {
+					out.stuck = fmt.Sprintf("Flush did not finish within 2 minutes of virtual time against a broker that answers every request at once: %v (%d records still buffered)", err, cl.BufferedProduceRecords())
+				}
+				out.aborted = true
 				return
 			}
 			if inTxn {
@@ -599,7 +671,7 @@ func runCase(tt *testing.T, p *plan) *outcome {
 			}
 		}
 		for i, rp := range p.Recs {
-			if out.infra != "" {
+			if out.infra != "" || out.aborted || caseCtx.Err() != nil {
 				break
 			}
 			if rp.Gap > 0 {
@@ -638,9 +710,13 @@ func runCase(tt *testing.T, p *plan) *outcome {
 				flush()
 			}
 		}
-		if out.infra == "" {
+		if out.infra == "" && !out.aborted && caseCtx.Err() == nil {
 			flush()
 		}
+		if caseCtx.Err() != nil {
+			out.aborted = true
+		}
+		e.Settle()
 		out.frames = br.Frames()
 		bs.mu.Lock()
 		out.acks = append([]ack(nil), bs.acks...)
@@ -833,6 +909,9 @@ func check(p *plan, o *outcome) (errs []string) {
 			ev.Class(fmt.Sprintf("batch_codec_%d", c))
 		}
 	}
+	if o.stuck != "" {
+		bad("%s", o.stuck)
+	}
 	checkSequencesAndDelivery(p, o, all, bad)
 	return errs
 }
@@ -844,10 +923,14 @@ func checkBatch(p *plan, o *outcome, d *decoded, pw string, bad func(string, ...
 		bad("%s: empty batch", pw)
 		return
 	}
-	if int64(b.WireLen) > int64(p.B) {
+	limit := int64(p.B)
+	if knownActive[knownMsgSetBatchMax] && f.Version <= 2 {
+		limit += 48 // weaker claim for the known finding's class: one record's sizing difference
+	}
+	if int64(b.WireLen) > limit {
 		bad("%s: written batch of %d bytes exceeds ProducerBatchMaxBytes %d", pw, b.WireLen, p.B)
 	}
-	if int64(b.UncompressedLen) > int64(p.B) {
+	if int64(b.UncompressedLen) > limit {
 		bad("%s: batch is %d bytes before compression, ProducerBatchMaxBytes is %d", pw, b.UncompressedLen, p.B)
 	}
 	if want := allowedCodec(p, f.Version); b.Codec != 0 && b.Codec != want {
@@ -1020,6 +1103,17 @@ func checkSequencesAndDelivery(p *plan, o *outcome, all []decoded, bad func(stri
 		if a, ok := ackByFrame[d.frame.Seq][d.tp]; ok && a.code == 0 && a.appended {
 			acked[d.tp] = append(acked[d.tp], d.serials...)
 		}
+	}
+	for _, a := range o.acks {
+		switch {
+		case a.code != 0:
+			ev.Class(fmt.Sprintf("broker_answered_error_%d", a.code))
+		case !a.appended:
+			ev.Class("broker_acked_duplicate_resend")
+		}
+	}
+	if o.aborted {
+		return
 	}
 	// every record whose promise reported success is in exactly one appended batch, in order
 	if p.Acks != 0 {
